@@ -191,7 +191,7 @@ class YncaCommandHandler(socketserver.StreamRequestHandler):
     def _send_stored_value_or_error(self, subunit, function, skip_error_response=False) -> str | None:
         """ Sends the value that is stored, returns the value or None if it did not exist """
         value = self.store.get_data(subunit, function)
-        if value.startswith("@"):
+        if value in (UNDEFINED, RESTRICTED):
             if not skip_error_response:
                 self._send_ynca_error(value)
             return None
@@ -335,7 +335,7 @@ class YncaCommandHandler(socketserver.StreamRequestHandler):
             if response_functions := related_functions_table.get(function, None):
                 for response_function in response_functions:
                     value = self.store.get_data(subunit, response_function)
-                    if value is not UNDEFINED:
+                    if value not in (UNDEFINED, RESTRICTED):
                         self._send_ynca_value(subunit, response_function, value)
             else:
                 self._send_ynca_value(subunit, function, value)
